@@ -1209,7 +1209,13 @@ func (r *Runner) redir(ctx context.Context, rd *syntax.Redirect) (io.Closer, err
 func (r *Runner) loopStmtsBroken(ctx context.Context, stmts []*syntax.Stmt) bool {
 	oldInLoop := r.inLoop
 	r.inLoop = true
-	defer func() { r.inLoop = oldInLoop }()
+	defer func() {
+		r.inLoop = oldInLoop
+		if !r.inLoop {
+			// "break 5" in two nested loops leaves no jump pending.
+			r.breakEnclosing, r.contnEnclosing = 0, 0
+		}
+	}()
 	for _, stmt := range stmts {
 		r.stmt(ctx, stmt)
 		if r.contnEnclosing > 0 {
